@@ -94,6 +94,17 @@ SyntaxVisitor::Action NameCataloger::visitIdentifierDeclarator(const IdentifierD
     return Action::Skip;
 }
 
+SyntaxVisitor::Action NameCataloger::visitEnumeratorDeclaration(const EnumeratorDeclarationSyntax* node)
+{
+    // An enumeration constant is an ordinary identifier that doesn't name a type.
+    const auto& name = node->identifierToken().valueText();
+    catalog_->catalogUseAsNonTypeName(name);
+    catalog_->catalogDefAsNonTypeName(name);
+    visit(node->expression());
+
+    return Action::Skip;
+}
+
 //-------------//
 // Expressions //
 //-------------//
